@@ -21,7 +21,8 @@ def sh(cmd, cwd=None, env=None, timeout=3600):
 
 def main():
     prop, d = sys.argv[1], os.path.abspath(sys.argv[2])
-    props = [a for a in sys.argv[3:] if not a.startswith('dest=')] or [prop]
+    props = [a for a in sys.argv[3:] if not a.startswith('dest=') and a != 'demo-only'] or [prop]
+    demo_only = 'demo-only' in sys.argv
     tag = re.sub(r"[^A-Za-z0-9]", "", d)[-24:]
     wt = "/tmp/se-wt-" + tag
     vb = "/tmp/se-vb-" + tag
@@ -49,7 +50,9 @@ def main():
             shutil.copy(os.path.join(d, f), dd)
             dests.append(os.path.relpath(dd, wt))
         res["demo_files"] = dests
-        lines = [l.strip().strip("`") for l in run.splitlines() if re.search(r"\bgo (test|run)\b", l)]
+        lines = [l.strip().strip("`").strip() for l in run.splitlines() if re.search(r"\bgo (test|run)\b", l)]
+        cmdlike = [l for l in lines if re.match(r"^(\$ )?(cd |go |export |GOFLAGS=)", l) and "`" not in l]
+        lines = [re.sub(r"^\$ ", "", l) for l in cmdlike] or lines
         demo_cmd = None
         if lines:
             demo_cmd = lines[-1]
@@ -85,7 +88,7 @@ def main():
                 pass
         env = dict(ENV, VERIF_REPO=wt, VERIF_BUILD=vb)
         checks = {}
-        for p in props:
+        for p in ([] if demo_only else props):
             rc, o = sh("./check %s --tier quick" % p, cwd="/verif", env=env, timeout=3600)
             v = [l for l in o.splitlines() if l.startswith("VIOLATION")]
             checks[p] = {"rc": rc, "violations": len(v), "first": (re.findall(r"\[check\]\s+(.*)", o) or [""])[0][:300]}
